@@ -497,6 +497,47 @@ fn vertex_link_ok(link: &[Vec<u64>], d: usize, interior: bool) -> bool {
     if interior && !bfacets.is_empty() {
         return false;
     }
+    // strong connectivity: the link simplices must be connected through shared (d-2)-faces. Two balls
+    // or spheres glued along a lower-dimensional face (a star pinched at an edge, triangle, ...) have a
+    // connected 1-skeleton and proper facet degrees but are not a ball / sphere.
+    {
+        let n = link.len();
+        let mut parent: Vec<usize> = (0..n).collect();
+        fn find(p: &mut Vec<usize>, x: usize) -> usize {
+            let mut r = x;
+            while p[r] != r {
+                r = p[r];
+            }
+            let mut y = x;
+            while p[y] != r {
+                let nx = p[y];
+                p[y] = r;
+                y = nx;
+            }
+            r
+        }
+        let mut owner: BTreeMap<Vec<u64>, usize> = BTreeMap::new();
+        for (i, s) in link.iter().enumerate() {
+            let mut ss = s.clone();
+            ss.sort_unstable();
+            for omit in 0..ss.len() {
+                let f: Vec<u64> = ss.iter().enumerate().filter(|(k, _)| *k != omit).map(|(_, x)| *x).collect();
+                match owner.get(&f) {
+                    Some(&j) => {
+                        let (a, b) = (find(&mut parent, i), find(&mut parent, j));
+                        parent[a] = b;
+                    }
+                    None => {
+                        owner.insert(f, i);
+                    }
+                }
+            }
+        }
+        let root = find(&mut parent, 0);
+        if (1..n).any(|i| find(&mut parent, i) != root) {
+            return false;
+        }
+    }
     if !bfacets.is_empty() {
         let mut rcount: BTreeMap<Vec<u64>, usize> = BTreeMap::new();
         for f in &bfacets {
